@@ -226,13 +226,13 @@ def run(tier):
     size_sigs = {}
     distinct = 0
     maxlen_rt = 0
-    loc_lists = {}
 
     def judge(case, res, expect, count_distinct):
         nonlocal distinct, maxlen_rt, incomplete_lines
-        chk.cov['evaluations'] += 1
         r = res or 'NOOUTPUT'
         f = fields(r)
+        chk.cov['evaluations'] += max(1, int(f.get('lists', 0)) if r[:3] in ('ok ', 'bad') else 1)   # one evaluation = one comment list put through the oracle
+        chk.cov['case_lines'] = chk.cov.get('case_lines', 0) + 1
         if r.startswith('ok') or r.startswith('bad:'):
             for k in tot:
                 tot[k] += int(f.get(k, 0))
@@ -327,7 +327,14 @@ def run(tier):
             big_sizes = tot['big'] - before['big']
         if kind == 'q':
             loc_pass = {k: tot[k] - before[k] for k in loc_pass}
-        samples.append({'case': lines[len(lines) // 2][1], 'result': (res[len(lines) // 2] or '')[:160]})
+        mid = lines[len(lines) // 2]
+        samples.append({'case': mid[1], 'result': (res[len(lines) // 2] or '')[:160]})
+        if mid[0] is not None and mid[0].n > 0 and len(samples) < 12:
+            sub, t = mid[0], mid[1].split()
+            lo, hi = int(t[6]), min(int(t[7]), sub.ns)
+            hx = lambda b: b.hex() or '-'
+            samples.append({'first_list_of_that_subspace_line': [hx(sub.S[lo])] + [hx(sub.S[0])] * (sub.n - 1),
+                            'last_list_of_that_subspace_line': [hx(sub.S[hi - 1])] + [hx(sub.S[-1])] * (sub.n - 1), 'entries': 'hex, - = empty entry'})
         print(f'  chunk {bname}: {len(lines)} case lines, {tot["lists"] - before["lists"]} lists, {time.time() - t1:.1f}s', file=sys.stderr)
     for s, got in agg.values():
         per_sub.append({'subspace': s.name(), 'lists_in_subspace': s.total(), 'lists_run': got})
@@ -345,7 +352,10 @@ def run(tier):
     chk.cov.update({
         'distinct_nontrivial': distinct,
         'exhaustive': bool(complete and incomplete_lines == 0),
-        'rule': 'distinct_nontrivial = number of distinct comment lists with >= 1 entry for which every construction variant round-tripped through both header paths and every query agreed '
+        'rule': 'cases = comment lists, enumerated completely per sub-space inside the C executor (all lists of exactly n entries over all byte strings of length <= L over a small alphabet containing a, A, =, NUL, 0xE9, i; see subspaces) plus hand-listed size extremes; '
+                'every list is built in the structure directly with explicit lengths (and through vorbis_comment_add / vorbis_comment_add_tag when NUL-free), written by vorbis_analysis_headerout and vorbis_commentheader_out, read by vorbis_synthesis_headerin and compared with the list; '
+                'every tag of {a,A,aa,a=,(empty),i,I,0xE9,0xC9,TITLE} x every index 0..count+1 is queried on the written and on the read structure; evaluations = lists put through this oracle (all locales); '
+                'distinct_nontrivial = number of distinct comment lists with >= 1 entry for which every construction variant round-tripped through both header paths and every query agreed '
                 '(sub-spaces are disjoint by construction: a sub-space skips the lists that lie entirely inside another one; size-extreme lists are added only when they have an entry longer than, or more entries than, any enumerated list)',
         'subspaces': per_sub,
         'size_cases': {'counts': counts, 'counts_with_embedded_nul': countsz, 'lengths': lens, 'other': ['all256', 'fold256 (256 entries X"=v" x all 255 one-byte tags)']},
